@@ -1,6 +1,6 @@
 \* two indexes, AllSuccessful, lagging caches, user delete, crash: a Job recorded finished next to a live task; deletion continued after a restart
 CONSTANTS N = 2 MaxAtt = 1 Delay = 0 Strategy = "AllSuccessful" PT = 2 FD = 2 TTL = 2 Forbid = FALSE Foreign = FALSE MaxTime = 3 MaxEvq = 2 MaxFaults = 0 MaxCrash = 1 Fresh = FALSE KillDelays = {} KillEdits = {} UserDeletes = TRUE ExtDeletes = FALSE NodeDowns = FALSE
- Rejects = FALSE Holds = FALSE Invalids = FALSE D = 48 K = 25 Goals = {4, 5}
+ Rejects = FALSE Holds = FALSE Invalids = FALSE WatchBreaks = FALSE D = 48 K = 25 Goals = {4, 5}
 SPECIFICATION GSpec2
 VIEW GView
 INVARIANTS Goal4 Goal5 Stop
